@@ -26,7 +26,7 @@ def canon(s, subs):
     return s
 
 
-def ninja_records(builddir, text, subs, envnames):
+def ninja_records(builddir, text, subs, envnames, include_test=True):
     """Evaluate every non-phony, non-maintenance edge of build.ninja with the reference evaluator, replace the tool
     variables by the recorder and run the command lines with the real dash in builddir."""
     m = ninjaparse.parse(text)
@@ -39,7 +39,8 @@ def ninja_records(builddir, text, subs, envnames):
         if b['rule'] == 'phony':
             continue
         out0 = b['outputs'][0]
-        if b['rule'] in ('regenerate',) or out0 in ('clean', 'install', 'uninstall', 'test', 'tests') or out0.startswith('dist'):
+        if b['rule'] in ('regenerate',) or out0 in ('clean', 'install', 'uninstall', 'tests') or out0.startswith('dist') \
+                or (out0 == 'test' and not include_test):
             skipped.append(out0)
             continue
         cmd = m.command(out0)
@@ -87,6 +88,8 @@ def one_project(rep, rng, idx, odd_names):
         conf_env['LDFLAGS'] = '-Wl,--as-needed'
     if rng.random() < 0.3:
         conf_env['CPPFLAGS'] = '-DCPP=1'
+    if idx % 2 == 0 or rng.random() < 0.3:
+        conf_env['LDLIBS'] = '-lm'
     conf_args = rng.choice([[], ['--disable-shared', '--enable-static'], ['--enable-shared', '--disable-static'], ['--prefix=/opt/my app']])
     bad = 0
     with project.Scratch('c06') as s:
@@ -105,7 +108,7 @@ def one_project(rep, rng, idx, odd_names):
             return 0
         subs_m = [(bm, '$B'), (s.src, '$S')]
         subs_n = [(bn, '$B'), (s.src, '$S')]
-        envnames = tuple('V%d' % i for i in range(4))
+        envnames = tuple('V%d' % i for i in range(4)) + ('TV',)
         ntext = project.read(bn, 'build.ninja')
         m, nrecs = ninja_records(bn, ntext, subs_n, envnames)
         # make: build every ninja output that is not internal (so both sides run the same steps)
@@ -114,7 +117,7 @@ def one_project(rep, rng, idx, odd_names):
             if b['rule'] == 'phony' and b['outputs'][0] not in ('all',):
                 continue
             o = b['outputs'][0]
-            if o in ('clean', 'install', 'uninstall', 'test', 'tests', 'build.ninja', 'all') or o.startswith('dist') or INTERNAL.search(o):
+            if o in ('clean', 'install', 'uninstall', 'tests', 'build.ninja', 'all') or o.startswith('dist') or INTERNAL.search(o):
                 continue
             targets.append(o)
         rcm, mrecs, mout = project.make(bm, targets, stub_tools=True, envnames=envnames)
@@ -234,8 +237,9 @@ def replay(rep, path):
 
 # ----------------------------------------------------------------------------- shared with C01 / C02
 def contains_sublist(hay, needle):
-    n = len(needle)
-    return n == 0 or any(hay[i:i + n] == needle for i in range(len(hay) - n + 1))
+    """needle occurs in hay as an order-preserving subsequence (semantic flags such as -fPIC may sit in between)"""
+    it = iter(hay)
+    return all(any(x == y for y in it) for x in needle)
 
 
 def declared_vs_delivered(rep, rng, idx, backend, odd_names=False):
@@ -251,7 +255,7 @@ def declared_vs_delivered(rep, rng, idx, backend, odd_names=False):
             rep.count('system:configure_failed')
             rep.sample({'configure_failed': out[-300:], 'script': p.script()})
             return 0
-        envnames = tuple('V%d' % i for i in range(4))
+        envnames = tuple('V%d' % i for i in range(4)) + ('TV',)
         if backend == 'make':
             ntext = None
             targets = []
@@ -260,6 +264,8 @@ def declared_vs_delivered(rep, rng, idx, backend, odd_names=False):
                     targets.append(st['name'])
                 elif st['kind'] == 'build_step':
                     targets.append(st['outputs'][0])
+            if any(st['kind'] in ('test', 'test_driver') for st in p.steps):
+                targets.append('test')
             rcm, recs, mout = project.make(s.build, ['all'] + targets, stub_tools=True, envnames=envnames)
             if rcm != 0:
                 rep.fail('%s: make fails on the generated project: %s' % (backend, mout[-300:]),
@@ -279,6 +285,31 @@ def declared_vs_delivered(rep, rng, idx, backend, odd_names=False):
                 elif any(r['env'].get(k) != v for r in hit[:1] for k, v in st['env'].items()):
                     bad += rep.fail('%s backend: command() environment %r is delivered as %r' % (backend, st['env'], hit[0]['env']),
                                     {'script': p.script(), 'declared_env': st['env'], 'delivered_env': hit[0]['env']})
+            elif st['kind'] == 'test':
+                hit = [r for r in recs if r['argv'] == st['args']]
+                rep.case('sys:%s:test:%r' % (backend, st['args']), True)
+                if not hit:
+                    bad += rep.fail('%s backend: test() arguments %r are not delivered unchanged' % (backend, st['args']),
+                                    {'script': p.script(), 'declared': st['args'], 'candidates': [a for a in argvs if a and a[:1] == ['plaintest']]})
+                elif any(hit[0]['env'].get(k) != v for k, v in st['env'].items()):
+                    bad += rep.fail('%s backend: test() environment %r is delivered as %r' % (backend, st['env'], hit[0]['env']),
+                                    {'script': p.script(), 'declared_env': st['env'], 'delivered_env': hit[0]['env']})
+            elif st['kind'] == 'test_driver':
+                hit = [a for a in argvs if a and a[:len(st['args'])] == st['args']]
+                rep.case('sys:%s:driver:%r' % (backend, st['children']), True)
+                ok = bool(hit) and len(hit[0]) == len(st['args']) + len(st['children'])
+                got = []
+                if ok:
+                    for child_line, child in zip(hit[0][len(st['args']):], st['children']):
+                        # the driver receives each child's command line as ONE argument, to be run by sh
+                        rc_, rr_, _ = shtools.dash_run(child_line)
+                        delivered = [rr_[0]['argv0']] + rr_[0]['argv'] if rc_ == 0 and len(rr_) == 1 else None
+                        got.append(delivered)
+                        if delivered != child:
+                            ok = False
+                if not ok:
+                    bad += rep.fail('%s backend: test_driver children %r reach the driver as %r' % (backend, st['children'], hit[:1]),
+                                    {'script': p.script(), 'declared_children': st['children'], 'driver_argv': hit[:1], 'children_after_sh': got})
             elif st['kind'] == 'build_step':
                 rep.case('sys:%s:bs:%r' % (backend, st['args']), True)
                 if st['args'] not in argvs:
